@@ -58,7 +58,7 @@ MANIFEST = {
 
 def plan(tier):
     t = 400 if tier == "quick" else 900
-    wparts = ["0:0,1:0", "0:1,1:0"] + [f"0:{d},1:{n},2:{k}" for d in range(2) for n in (1, 2) for k in range(6)]
+    wparts = ["0:0,1:0", "0:1,1:0"] + [f"0:{d},1:{n},2:{k}" for d in range(2) for n in (1, 2) for k in range(7)]
     tparts = [f"0:0,1:{k}" for k in range(14)] + [f"0:1,1:{o}" for o in range(9)]
     aparts = [f"0:{k}" for k in range(4)] if tier == "quick" else \
         [f"0:0,1:{k}" for k in range(4)] + [f"0:1,1:{k},2:{v}" for k in range(4) for v in range(7)]  # two table entries: split on the first value kind
